@@ -211,7 +211,9 @@ func Compare(e exif2.Exif, r *gen.Record, c Ctx) []string {
 	stamp := func(name string, got time.Time, s gen.Stamp) {
 		if s.Date == nil {
 			// sub-second and offset tags qualify a date: without the date tag there is no timestamp to report
-			if !got.IsZero() {
+			if !got.IsZero() && s.Unknown != "" {
+				bad("%s = %v but the date tag says \"unknown\" (%s digits; sub-second %q, offset %q): there is no timestamp to report", name, got, s.Unknown, str(s.SubSec), str(s.Offset))
+			} else if !got.IsZero() {
 				bad("%s = %v but the date tag is absent (sub-second %q, offset %q)", name, got, str(s.SubSec), str(s.Offset))
 			}
 			return
